@@ -495,6 +495,35 @@ fn main() {
         // C17: `get_page_size_mul(n)` and the length of `default(n)` / `new_zeroed(n)` buffers for the requested minimums
         use std::io::Write;
         writeln!(out, "page {}", mutringbuf::vmem_helper::page_size()).unwrap();
+        {
+            // ownership of the supplied data on BOTH paths of a construction `from(Vec<T>)`:
+            // (a) a length that is not a whole number of pages is rejected (panic) - the items handed over are destroyed exactly once;
+            // (b) data whose first and last items are the all-zero pattern (`None`) while the ones in between are live: the buffer holds
+            //     every one of them (read back through the producer's window), and dropping it destroys each exactly once
+            use std::rc::Rc;
+            let page = mutringbuf::vmem_helper::page_size();
+            let tok = Rc::new(());
+            for n in [1usize, 3, 7] {
+                let v: Vec<Rc<()>> = (0..n).map(|_| tok.clone()).collect();
+                let r = std::panic::catch_unwind(std::panic::AssertUnwindSafe(|| { let _b = mutringbuf::LocalHeapRB::from(v); }));
+                writeln!(out, "reject {} panicked={} left={}", n, r.is_err(), Rc::strong_count(&tok) - 1).unwrap();
+            }
+            let n = page;          // lengths are counted in items
+            let mut v: Vec<Option<Rc<()>>> = (0..n).map(|_| Some(tok.clone())).collect();
+            v[0] = None; v[n - 1] = None;
+            let held = std::panic::catch_unwind(std::panic::AssertUnwindSafe(|| {
+                let b = mutringbuf::LocalHeapRB::from(v); let (mut p, _c) = b.split();
+                let len = p.buf_len();
+                let live = unsafe { p.get_next_slices_mut(len - 1) }.map(|s| s.iter().filter(|x| x.is_some()).count()).unwrap_or(0);
+                (len, live, Rc::strong_count(&tok) - 1)
+            })).unwrap_or((0, 0, 0));
+            writeln!(out, "sparse n={} len={} live={} refs={} left={}", n, held.0, held.1, held.2, Rc::strong_count(&tok) - 1).unwrap();
+            let mut v: Vec<u64> = (0..page as u64).collect(); let m = v.len(); v[m - 1] = 0;
+            let want: u64 = v.iter().sum();
+            let got = { let b = mutringbuf::ConcurrentHeapRB::from(v); let (mut p, _c) = b.split(); let len = p.buf_len();
+                        unsafe { p.get_next_slices_mut(len - 1) }.map(|s| s.iter().sum::<u64>()).unwrap_or(0) };
+            writeln!(out, "sparseplain want={} got={}", want, got).unwrap();
+        }
         for a in &args[2..] {
             let n: usize = a.parse().unwrap();
             let m = mutringbuf::vmem_helper::get_page_size_mul(n);
